@@ -4,6 +4,7 @@ CONSTANTS
   Kinds <- KindsQ
   MaxT = 1
   Variant = "ok"
+  Srcs = "few"
 INVARIANT TypeOK
 INVARIANT PermInv
 INVARIANT PermBijective
